@@ -15,14 +15,65 @@ def specMatches (f : FieldSpec) (group version kind : String) : Bool :=
 abbrev Loc := String × Option Dict
 
 def applyAt (specs : List FieldSpec) (group version kind : String) (L : Dict) (loc : Loc) : Loc :=
-  match specs.find? (fun f => f.path = loc.1 && specMatches f group version kind) with
-  | some f =>
-    match loc.2 with
+  -- every spec that names this location and matches the resource is applied, in order (`fsslice`): an existing map is
+  -- overridden (idempotently), an absent one is created as soon as one of them has `create`
+  let ms := specs.filter (fun f => f.path = loc.1 && specMatches f group version kind)
+  if ms.isEmpty then loc
+  else match loc.2 with
     | some cur => (loc.1, some (over cur L))
-    | none => if f.create then (loc.1, some (over [] L)) else loc
-  | none => loc
+    | none => if ms.any (·.create) then (loc.1, some (over [] L)) else loc
 
 def applyLabels (specs : List FieldSpec) (group version kind : String) (L : Dict) (locs : List Loc) : List Loc :=
   locs.map (applyAt specs group version kind L)
+
+/-! ### `labels` entries with their own field specs (the LabelTransformer configurator of kusttarget_configplugin.go) -/
+
+structure Entry where
+  pairs : Dict
+  includeSelectors : Bool
+  includeTemplates : Bool
+  /-- the entry's own `fields` -/
+  fields : List FieldSpec
+
+/-- `FieldSpec.effectivelyEquals`: the EXISTING spec `y` "is" the incoming `x` when `y`'s GVK is selected by `x`'s (empty parts
+    of the INCOMING spec are wild cards) and the paths are equal — not a symmetric relation -/
+def sameSpot (y x : FieldSpec) : Bool :=
+  (x.group = "" || y.group = x.group) && (x.version = "" || y.version = x.version) && (x.kind = "" || y.kind = x.kind) && y.path = x.path
+
+/-- `FsSlice.MergeOne`: a spec already present is kept, unless its create flag differs -/
+def mergeOne (s : List FieldSpec) (x : FieldSpec) : Out (List FieldSpec) :=
+  match s.find? (fun y => sameSpot y x) with
+  | some y => if y.create = x.create then .ok s else .err "conflict"
+  | none => .ok (s ++ [x])
+
+/-- `FsSlice.MergeAll` -/
+def mergeAll : List FieldSpec → List FieldSpec → Out (List FieldSpec)
+  | s, [] => .ok s
+  | s, x :: r =>
+    match mergeOne s x with
+    | .ok s' => mergeAll s' r
+    | .err e => .err e
+    | .panic e => .panic e
+
+def metaLabels : FieldSpec := ⟨"", "", "", "metadata/labels", true⟩
+
+/-- the field specs one entry is applied with: its OWN `fields`, then the configured tables its flags ask for.  The
+    tables are arguments and the result is a new list: nothing an entry brings reaches another entry. -/
+def entrySpecs (common tmpl : List FieldSpec) (e : Entry) : Out (List FieldSpec) :=
+  if e.includeSelectors then mergeAll e.fields common
+  else
+    match (if e.includeTemplates then mergeAll e.fields tmpl else .ok e.fields) with
+    | .ok s => mergeOne s metaLabels
+    | .err c => .err c
+    | .panic c => .panic c
+
+/-- the entries of one kustomization file, in order -/
+def applyEntries (common tmpl : List FieldSpec) (group version kind : String) : List Entry → List Loc → Out (List Loc)
+  | [], locs => .ok locs
+  | e :: es, locs =>
+    match entrySpecs common tmpl e with
+    | .ok specs => applyEntries common tmpl group version kind es (applyLabels specs group version kind e.pairs locs)
+    | .err c => .err c
+    | .panic c => .panic c
 
 end Kust.Labels
